@@ -180,6 +180,8 @@ def run(tier, seed):
         for pair in (["T1", "T2"], ["T1", "T3"], ["T3", "T2"]):
             plans.append({"threads": pair, "gran": "call", "bound": 2, "whole": False})
             plans.append({"threads": pair, "gran": "line", "bound": 1, "whole": False})
+            # whole pipeline (metadata generation + registry + merge + layout + rendering) inside the scheduled region
+            plans.append({"threads": pair, "gran": "call", "bound": 1, "whole": True})
     else:
         for pair in itertools.combinations(["T1", "T2", "T3", "T4"], 2):
             plans.append({"threads": list(pair), "gran": "call", "bound": 2, "whole": False})
